@@ -230,4 +230,59 @@ FormatEventOK(e, a, aw, c) ==
           ELSE IF ~hasFlags /\ ~ReadBack(r.t, r.rp) THEN Bad("output-does-not-read-back")
           ELSE IF "N" \in DOMAIN e THEN Chk(FmtPrecRelOK(e.kind, a, e.N, plain, c), "precision-formatting")
           ELSE Chk(FmtRelOK(e.kind, aw, plain, c), "reparsed-decimal-differs")
+
+\* ---------------------------------------------------------------- C08: division (relational: no division in the oracle)
+\* adjusted exponent of the true quotient a/b (a, b non-zero): compare the mantissas
+AdjQ(a, b) ==
+  LET k == Adj(a) - Adj(b)
+      ge == NCmp(Shl(a.d, Len(b.d)), Shl(b.d, Len(a.d))) >= 0
+  IN IF ge THEN k ELSE k - 1
+\* does a/b terminate within P significant digits?  (E = AdjQ(a, b)); the only place a division is needed
+HasShortQuotient(a, b, P, E) ==
+  LET k == (P - 1 - E) - a.sc + b.sc
+  IN IF k >= 0 THEN NMod(Shl(a.d, k), b.d) = <<>> ELSE NMod(a.d, Shl(b.d, -k)) = <<>>
+DivOK(a, b, P, r) ==
+  IF b.d = <<>> THEN Chk(IsPanic(r), "zero-divisor-must-panic")
+  ELSE IF ~IsD(r) THEN Bad("outcome-kind")
+  ELSE LET x == DecOf(r.d)
+           xb == DMul(x, b)
+           e == DSub(xb, a)
+       IN IF e.d = <<>> THEN OK                                    \* exact quotient
+          ELSE IF x.s # a.s * b.s THEN Bad("sign")
+          ELSE IF Len(x.d) < P THEN Bad("fewer-digits-than-the-precision")
+          ELSE LET c == DCmp(DAbs(DAdd(e, e)), DMul(DAbs(b), Ulp(x.sc))) IN
+               IF c > 0 THEN Bad("more-than-half-ulp")
+               ELSE IF c = 0 /\ DCmp(DAbs(xb), DAbs(a)) < 0 THEN Bad("tie-not-away-from-zero")
+               ELSE LET E == AdjQ(a, b) IN
+                    IF -x.sc > E - P + 1 /\ HasShortQuotient(a, b, P, E) THEN Bad("short-quotient-not-exact")
+                    ELSE OK
+\* all spellings of the same division (same operand representations) must return the same value
+DivLookup(hs, key) == SelectInSeq(hs, LAMBDA p : p[1] = key)
+DivAgreeOK(hs, a, b, r) ==
+  LET k == DivLookup(hs, <<a, b>>) IN
+  IF k = 0 \/ ~IsD(r) THEN OK ELSE Chk(ValEq(hs[k][2], DecOf(r.d)), "forms-disagree")
+DivRemember(hs, a, b, r) ==
+  IF ~IsD(r) \/ DivLookup(hs, <<a, b>>) # 0 THEN hs ELSE Append(hs, <<<<a, b>>, DecOf(r.d)>>)
+
+\* ---------------------------------------------------------------- C09: remainder of truncated division
+\* declarative: align both operands to the larger scale, remainder of the magnitudes, sign of the dividend
+RemNaive(a, b) ==
+  LET sc == MaxI(a.sc, b.sc)
+  IN Mk(a.s, NMod(Shl(a.d, sc - a.sc), Shl(b.d, sc - b.sc)), sc)
+\* 10^k mod b by square-and-multiply (depth log k)
+RECURSIVE PowMod10(_, _)
+PowMod10(k, b) == IF k = 0 THEN NMod(One, b)
+                  ELSE IF k < 60 THEN NMod(Pow10(k), b)
+                  ELSE LET h == PowMod10(k \div 2, b)  sq == NMod(NMul(h, h), b)
+                       IN IF k % 2 = 0 THEN sq ELSE NMod(NMulSmall(sq, 10), b)
+\* the same value without materialising 10^gap-digit operands (scale gaps up to 10^4):
+\*   (A_hi*10^k + A_lo) mod (B*10^k) = (A_hi mod B)*10^k + A_lo     and     (A*10^k) mod B = ((A mod B)*(10^k mod B)) mod B
+RemFast(a, b) ==
+  LET sc == MaxI(a.sc, b.sc) IN
+  IF a.sc >= b.sc
+  THEN LET k == a.sc - b.sc IN Mk(a.s, NAdd(Shl(NMod(Shr(a.d, k), b.d), k), Low(a.d, k)), sc)
+  ELSE LET k == b.sc - a.sc IN Mk(a.s, NMod(NMul(NMod(a.d, b.d), PowMod10(k, b.d)), b.d), sc)
+RemOK(a, b, r) ==
+  IF b.d = <<>> THEN Chk(IsPanic(r), "zero-divisor-must-panic")
+  ELSE ValIs(r, IF AbsI(a.sc - b.sc) <= 40 THEN RemNaive(a, b) ELSE RemFast(a, b))
 =============================================================================
